@@ -114,6 +114,7 @@ func (*Lexer).readStringToken
   ensures lexOK(l) && l.pos > old(l.pos) && l.input == old(l.input)
   ensures one-string-token-whatever-it-contains: result.Type == TokenString && result.Value == l.input[old(l.pos):l.pos] && result.Pos == pos
   ensures nothing-inside-is-a-quote: forall(i, old(l.pos) + 1, l.pos - 1, l.input[i] != old(l.ch))
+  ensures the-literal-ends-at-the-first-quote-of-its-own-kind-or-runs-to-the-end-of-input: (l.pos - old(l.pos) >= 2 && l.input[l.pos - 1] == old(l.ch)) || l.ch == 0
   loop 1 invariant lexOK(l) && l.pos > old(l.pos) && l.input == old(l.input) && quoteChar == old(l.ch) && startPos == old(l.pos) && forall(i, old(l.pos) + 1, l.pos, l.input[i] != old(l.ch))
   loop 1 decreases len(l.input) - l.pos
 
@@ -125,7 +126,9 @@ func (*Lexer).readQuotedIdentToken
   ensures recorded-errors-stay-non-nil: old(errsOK(l.errorRecovery)) ==> errsOK(l.errorRecovery)
   ensures lexOK(l) && l.pos > old(l.pos) && l.input == old(l.input)
   ensures one-identifier-token-whatever-it-contains: result.Type == TokenQuotedIdent && result.Value == l.input[old(l.pos):l.pos] && result.Pos == pos
-  loop 1 invariant lexOK(l) && l.pos > old(l.pos) && l.input == old(l.input) && startPos == old(l.pos)
+  ensures no-backtick-inside: forall(i, old(l.pos) + 1, l.pos - 1, l.input[i] != 96)
+  ensures the-identifier-ends-at-the-next-backtick-or-runs-to-the-end-of-input: (l.pos - old(l.pos) >= 2 && l.input[l.pos - 1] == 96) || l.ch == 0
+  loop 1 invariant lexOK(l) && l.pos > old(l.pos) && l.input == old(l.input) && startPos == old(l.pos) && forall(i, old(l.pos) + 1, l.pos, l.input[i] != 96)
   loop 1 decreases len(l.input) - l.pos
 
 func (*Lexer).isValidNumber
